@@ -34,8 +34,18 @@ patch = os.path.join(out, "patch.diff")
 # demo files: untracked files of the agent's worktree
 rc, o = sh("git status --porcelain", cwd=src_wt)
 demos = [l[3:].strip() for l in o.splitlines() if l.startswith("??") and l.strip().endswith(".go")]
-pkgs_demo = sorted(set(os.path.dirname(d) for d in demos))
 touched = sorted(set(os.path.dirname(m) for m in re.findall(r"(?m)^\+\+\+ b/(\S+)", open(patch).read())))
+if not demos:
+    # the agent delivered the demo only in the out directory: put it next to the change
+    for root, _, files in os.walk(out):
+        for fn in files:
+            if fn.endswith("_test.go"):
+                rel = os.path.relpath(root, out)
+                target_dir = touched[0] if rel == "." else rel.replace("_", "/") if not os.path.isdir(os.path.join(src_wt, rel)) else rel
+                os.makedirs(os.path.join(src_wt, target_dir), exist_ok=True)
+                shutil.copy(os.path.join(root, fn), os.path.join(src_wt, target_dir, fn))
+                demos.append(os.path.join(target_dir, fn))
+pkgs_demo = sorted(set(os.path.dirname(d) for d in demos))
 for d in demos:
     os.makedirs(os.path.dirname(os.path.join(wt, d)), exist_ok=True)
     shutil.copy(os.path.join(src_wt, d), os.path.join(wt, d))
